@@ -150,6 +150,15 @@ func (e *c05Env) oneTree(tree *c05Node, rng *vh.Rand, level int) error {
 		if level >= 2 {
 			e.routeCLIIdx(tree, srcDir, src, "sha512-256", "1:2:4")
 		}
+		if cliBytes != nil {
+			e.routeTarIn(tree, srcDir, src, cliBytes)
+			cat := e.scratch("fmt") + ".catar"
+			if err := os.WriteFile(cat, cliBytes, 0600); err == nil {
+				e.routeGnuTar(tree, srcDir, src, cat, level >= 2)
+				e.routeMtree(tree, srcDir, src, cat, []string{"sha512-256", "sha256"}[rng.Intn(2)])
+				os.Remove(cat)
+			}
+		}
 	}
 	return nil
 }
@@ -179,6 +188,10 @@ func runC05(a vh.Args, o *vh.Oracle, r *vh.Result) error {
 		return err
 	}
 	rng := vh.NewRand(a.Seed)
+	e.routeRootKinds(a.Seed ^ 0x7007)
+	for i := 0; i < 3; i++ {
+		e.routeXattrOrder(a.Seed ^ uint64(0xA77+i))
+	}
 	trees, cliEvery, maxDir := 40, 4, 200
 	if a.Tier == "thorough" {
 		trees, cliEvery, maxDir = 500, 3, 3000
@@ -195,6 +208,8 @@ func runC05(a vh.Args, o *vh.Oracle, r *vh.Result) error {
 			g.maxDir, g.budget = 60, 300
 		case i%10 == 5: // plain trees without the known-finding classes: everything must match
 			g.future, g.epochs, g.fifos = false, false, false
+		case i%4 == 0: // no xattrs: the gnu-tar route refuses them altogether
+			g.xattrs = false
 		}
 		if a.Tier == "thorough" && i%50 == 7 {
 			g.maxDir, g.budget = maxDir, maxDir+100
